@@ -1176,13 +1176,80 @@ func (e *fnEnc) nonEscapingAllocs() []*ssa.Alloc {
 			if _, isArr := al.Type().Underlying().(*types.Pointer).Elem().Underlying().(*types.Array); isArr {
 				continue
 			}
-			if addressStaysLocal(al, nil) {
+			if addressStaysLocal(al, nil) || addressStaysInOwnClosures(al) {
 				out = append(out, al)
 			}
 		}
 	}
 	e.nonEsc[e.fn] = out
 	return out
+}
+
+// addressStaysInOwnClosures: like addressStaysLocal, but the address may also
+// be captured by function literals of this function that are only deferred or
+// called on the spot (never stored, passed or returned): no *other* function
+// can then reach the variable, so a call to another function cannot change
+// it. (Such a variable still lives in the shared heaps - the literal reads it
+// through its free variable - but it is preserved across calls.)
+func addressStaysInOwnClosures(al *ssa.Alloc) bool {
+	refs := al.Referrers()
+	if refs == nil {
+		return false
+	}
+	sawClosure := false
+	for _, r := range *refs {
+		switch r := r.(type) {
+		case *ssa.FieldAddr:
+			for _, rr := range *r.Referrers() {
+				switch rr := rr.(type) {
+				case *ssa.UnOp:
+					if rr.Op != token.MUL {
+						return false
+					}
+				case *ssa.Store:
+					if rr.Val == ssa.Value(r) {
+						return false
+					}
+				case *ssa.DebugRef:
+				default:
+					return false
+				}
+			}
+		case *ssa.UnOp:
+			if r.Op != token.MUL {
+				return false
+			}
+		case *ssa.Store:
+			if r.Val == ssa.Value(al) {
+				return false
+			}
+		case *ssa.DebugRef:
+		case *ssa.MakeClosure:
+			sawClosure = true
+			mrefs := r.Referrers()
+			if mrefs == nil {
+				return false
+			}
+			for _, mr := range *mrefs {
+				switch mr := mr.(type) {
+				case *ssa.Defer:
+					if mr.Call.Value != ssa.Value(r) {
+						return false
+					}
+				case *ssa.Call:
+					if mr.Call.Value != ssa.Value(r) {
+						return false
+					}
+				case *ssa.DebugRef:
+				default:
+					return false
+				}
+			}
+		default:
+			return false
+		}
+	}
+	return sawClosure
 }
 
 // addressStaysLocal: the address (and the addresses of fields) is used only
